@@ -77,17 +77,24 @@ def insert_quant(
 
   # update the original consumers of the op to take the dequant op,
   # and find the first consumer of the new tensor
-  first_consumer_id = min(transformation_input.consumers)
-  for consumer_id in transformation_input.consumers:
+  # a negative consumer id stands for the graph output, not for an operator
+  op_consumers = [c for c in transformation_input.consumers if c >= 0]
+  first_consumer_id = (
+      min(op_consumers)
+      if op_consumers
+      else len(transformation_input.subgraph.operators)
+  )
+  for consumer_id in op_consumers:
     op = transformation_input.subgraph.operators[consumer_id]
     for input_idx in range(len(op.inputs)):
       if op.inputs[input_idx] == transformation_input.tensor_id:
         op.inputs[input_idx] = new_tensor_id
 
-  # if the output is also an output to the graph, we need to update that as well
-  for output_idx, output in enumerate(transformation_input.subgraph.outputs):
-    if output == transformation_input.tensor_id:
-      transformation_input.subgraph.outputs[output_idx] = new_tensor_id
+  # if the graph output is among the consumers, we need to update that as well
+  if len(op_consumers) != len(transformation_input.consumers):
+    for output_idx, output in enumerate(transformation_input.subgraph.outputs):
+      if output == transformation_input.tensor_id:
+        transformation_input.subgraph.outputs[output_idx] = new_tensor_id
 
   # add dequant into the subgraph op list,
   # must insert the op right before it's first consumer
